@@ -40,13 +40,15 @@ type Interp struct {
 	rec [][]string // the ops of phase A that are not reloads: `phase B` runs them again
 }
 
+const baseMs = 1900000000000
+
 var errTraffic = errors.New("biz error")
 
 func New() vh.Interp {
 	runtime.GOMAXPROCS(1)
 	debug.SetGCPercent(-1)
 	vh.Silence()
-	c := &clock{ns: 1900000000000 * 1e6}
+	c := &clock{ns: baseMs * 1e6}
 	util.SetClock(c)
 	return &Interp{clk: c}
 }
@@ -57,6 +59,7 @@ func (it *Interp) Reset() {
 }
 
 func (it *Interp) clear() {
+	it.clk.ns = baseMs * 1e6 // every phase starts at the same virtual time
 	_ = flow.ClearRules()
 	_ = circuitbreaker.ClearRules()
 	_ = hotspot.ClearRules()
